@@ -67,8 +67,8 @@ def check(run):
     rng = random.Random(run.seed)
     thorough = run.tier == "thorough"
     run.cov["rule"] = ("ordered pairs drawn from the 17 shipped species, the electron and synthetic atoms / ions / negative ions / molecules; all 16 consumed orders; "
-                       "T in {300, 1000, 3000, 10000, 30000} K; densities 1e16..1e24 (electron-electron pairs with equal densities); for each: extracted model vs "
-                       "implementation (value and class), symmetry, finiteness, positivity (Coulomb when the logarithm exceeds 2), documented class; "
+                       "T in {300, 400, 1000, 3000, 10000, 30000} K; densities 1e16..1e24 (electron-electron pairs with equal densities); for each: extracted model vs "
+                       "implementation (value and class), symmetry, finiteness, positivity (Coulomb when the logarithm exceeds 2), documented class, temperature-derivative recursion of the unfitted orders (own step 0.25 K); "
                        "electron-neutral closed form vs quadrature of its cross-section law; distinct = (species pair, order, T)")
     run.cov["trusted_base"] = common.TRUSTED_COMMON + [
         "Coq-Interval for ln 2 > 0.69 and pi^2/6 > partial sums of 1/k^2 (adds no axioms beyond the Reals ones)",
@@ -95,7 +95,7 @@ def check(run):
     hist = {}
     for si, sj in pairs:
         for (l, s) in tr.ORDERS:
-            T = rng.choice([300.0, 1000.0, 3000.0, 10000.0, 30000.0])
+            T = rng.choice([300.0, 400.0, 1000.0, 3000.0, 10000.0, 30000.0])
             ni = 10 ** rng.uniform(16, 24)
             nj = ni if si.name == sj.name else 10 ** rng.uniform(16, 24)
             a = impl_Q(si, ni, sj, nj, l, s, T)
@@ -120,6 +120,15 @@ def check(run):
                     lnL = float(ft.cl_charged(si, sj, ni, nj, T))
                     if lnL > 2 and not a > 0:
                         bad = f"Coulomb integral not positive although ln Lambda = {lnL:.3f} > 2: {a!r}"
+            if not bad and (l, s) in RECURSED and cls in ("Qnn", "Qin") and not isinstance(a, str):
+                # the temperature-derivative recursion, with a step of our own: Q(l,s) = Q(l,s-1) + T/(s+1) dQ(l,s-1)/dT
+                h = 0.25
+                lo, mid, hi = (impl_Q(si, ni, sj, nj, l, s - 1, t) for t in (T - h, T, T + h))
+                if not any(isinstance(v, str) for v in (lo, mid, hi)):
+                    rec = mid + T / (s + 1) * (hi - lo) / (2 * h)
+                    run.count(1, distinct_key=("rec", si.name, sj.name, l, s, T))
+                    if common.relerr(a, rec) > 1e-5:
+                        bad = f"order ({l},{s}) = {a!r} but the recursion from order ({l},{s - 1}) gives {rec!r}"
             if bad and found is None:
                 found = {"kind": "input", "what": f"Qij({si.name},{sj.name},l={l},s={s},T={T}): {bad}", "pair": [si.name, sj.name],
                          "species": [sc_full(si), sc_full(sj)], "ni": ni, "nj": nj, "l": l, "s": s, "T": T}
